@@ -1,8 +1,8 @@
 #!/venv/bin/python
-"""Development aid for C07: turn a VERIF_DUMP_VIOL file (thorough tier) into
-notes/C07.known.json + known/C07-*.txt side files.
+"""Development aid for C07: turn VERIF_DUMP_VIOL files into notes/C07.known.json
+(signatures are mechanism-level, so no side files are needed).
 
-usage: /venv/bin/python -m mc.gen.c07_triage DUMP [--write]
+usage: /venv/bin/python -m mc.gen.c07_triage DUMP [DUMP ...] [--write]
 
 Every signature of the dump must be matched by exactly one finding below,
 otherwise the tool stops: nothing is listed that has not been triaged."""
@@ -91,8 +91,10 @@ FINDINGS = [
 
 
 def main():
-    dump = sys.argv[1]
-    rows = [json.loads(line) for line in open(dump, encoding="utf-8")]
+    rows = []
+    for dump in sys.argv[1:]:
+        if not dump.startswith("--"):
+            rows += [json.loads(line) for line in open(dump, encoding="utf-8")]
     sigs = sorted({r["sig"] for r in rows})
     buckets = {}
     for sig in sigs:
